@@ -891,7 +891,7 @@ inverse!(JoinPat, input, asm, {
         ///
         /// Also get the number of values that make up the first joined value
         fn invert_inner(mut input: &[Node], asm: &Assembly) -> InversionResult<(Node, usize)> {
-            let mut node = Node::empty();
+            let mut pieces = Vec::new();
             let mut count = 1;
             while !input.is_empty() {
                 if let [Mod(Dip, args, dip_span), inp @ ..] = input {
@@ -907,12 +907,12 @@ inverse!(JoinPat, input, asm, {
                         }
                         inner => un_inverse(inner, asm)?,
                     };
-                    node.push(Mod(Dip, eco_vec![inner_inv.sig_node()?], *dip_span));
+                    pieces.push(Mod(Dip, eco_vec![inner_inv.sig_node()?], *dip_span));
                     input = inp;
                     continue;
                 }
                 if let [ImplMod(DipN(_), ..), inp @ ..] = input {
-                    node.extend(un_inverse(&input[..1], asm)?);
+                    pieces.push(un_inverse(&input[..1], asm)?);
                     input = inp;
                     continue;
                 }
@@ -925,10 +925,12 @@ inverse!(JoinPat, input, asm, {
                 let inv = un_inverse(&input[..i], asm)?;
                 let sig = nodes_clean_sig(&inv).ok_or(Generic)?;
                 count += sig.outputs().saturating_sub(sig.args());
-                node.extend(inv);
+                pieces.push(inv);
                 input = &input[i..];
             }
-            Ok((node, count))
+            // What was run last must be undone first
+            pieces.reverse();
+            Ok((Node::from_iter(pieces), count))
         }
         let before = &input[..join_index];
         input = &input[join_index + 1..];
